@@ -314,6 +314,9 @@ package tcp
 // anything else is answered by exactly one reset.
 //@ func (*protocol).HandleUnknownDestinationPacket props C03 C07
 //@   requires r != nil && len(vv.views) >= 1 && len(vv.views[0]) >= header.TCPMinimumSize && 0 <= vv.size && vv.size <= 1 << 40
-//@   ensures ghost(tcpSegs) == old(ghost(tcpSegs)) || (result && ghost(tcpSegs) == old(ghost(tcpSegs)) + 1 && ghost(lastTCPFlags) == int(flagRst | flagAck) && old(vv.views[0][13]) & flagRst == 0)
+//@   ensures ghost(tcpSegs) == old(ghost(tcpSegs)) || ghost(tcpSegs) == old(ghost(tcpSegs)) + 1
+//@   ensures implies(ghost(tcpSegs) != old(ghost(tcpSegs)), result && ghost(lastTCPFlags) == int(flagRst | flagAck))
+//@   ensures implies(ghost(tcpSegs) != old(ghost(tcpSegs)), old(vv.views[0][13]) & flagRst == 0)
 //@   ensures implies(result && old(vv.views[0][13]) & flagRst != 0, ghost(tcpSegs) == old(ghost(tcpSegs)))
+//@   ensures implies(result && old(vv.views[0][13]) & flagRst == 0, ghost(tcpSegs) == old(ghost(tcpSegs)) + 1)
 //@   modifies everything(), ghost(tcpSegs), ghost(lastTCPFlags), ghost(lastTCPSeq), ghost(lastTCPAck)
